@@ -187,6 +187,7 @@ func init() {
 			return nil
 		},
 		"vsymbolic": func(x *X, fn *ssa.Function, a []Value) Value { return x.B.True() },
+		"vreadvPush": func(x *X, fn *ssa.Function, a []Value) Value { x.ghostAppend("readvq", a[0]); return nil },
 		"vrandPush": func(x *X, fn *ssa.Function, a []Value) Value { x.ghostAppend("randq", a[0]); return nil },
 		"vparam": func(x *X, fn *ssa.Function, a []Value) Value {
 			if v, ok := x.Params[x.strArg(a[0])]; ok {
@@ -414,6 +415,15 @@ func init() {
 			id := a[1].(StructVal)
 			ports := x.B.Concat(id.F[0].(*T), id.F[2].(*T))
 			return x.B.UF("cookieHash", 32, ports, a[2].(*T), x.B.Extract(a[3].(*T), 7, 0))
+		},
+		ModulePath + "/protocol/link/rawfile.BlockingReadv": func(x *X, fn *ssa.Function, a []Value) Value {
+			// the kernel returns the next scripted frame length (vreadvPush); the harness pre-fills the buffers
+			q, _ := x.ghost["readvq"].([]Value)
+			if len(q) == 0 {
+				x.unsupported("BlockingReadv without a scripted length")
+			}
+			x.ghost["readvq"] = q[1:]
+			return Tuple{q[0], Pointer{}}
 		},
 		"internal/abi.NoEscape": func(x *X, fn *ssa.Function, a []Value) Value { return a[0] },
 		"(*" + ModulePath + "/protocol.StatCounter).Increment":   nop,
